@@ -21,7 +21,7 @@ EXHAUSTIVE = ["strands<=7 (quick) / <=8 (thorough) x n in {1,2,3,5} x all single
 RULE = ("icontract ensure on dsw.set_vt (fires on the internal calls from encode/decode/repair_dna too): result == "
         "NUC[sum mod 4] + big-endian base-4 digits of (sum of 0-based ascent positions mod 4^(n-1)), length n. Cases: every "
         "strand over ACGT of length 0..7 (thorough 0..8) x n in {1,2,3,5} with all single substitutions, deletions of C/G/T and insertions "
-        "of C/G/T (each neighbour must have a different check); random strands of length <= 10000 (quick 2000) with n <= "
+        "of C/G/T (each neighbour must have a different check); random strands of length <= 10000 (quick 2000) and a few of 70000-150000 (ascent sums beyond 2^32) with n <= "
         "64; walks of complete / generated graphs whose every single-edit neighbour must be rejected by decode(..., "
         "vt_check=original) with ValueError. Non-trivial: strand length >= 2 and n >= 2; distinct = hash of (strand, n).")
 NS_EXH = (1, 2, 3, 5)
@@ -73,6 +73,8 @@ def generate(ctx):
     for _ in range(ctx.pick(250, 3000)):
         kind = rng.choice(["random", "random", "ascending", "descending", "homopolymer", "two-symbol"])
         n_len = rng.choice([0, 1, 2, 3, 7, 30, 100, 400, rng.randint(0, max_len)])
+        if rng.random() < ctx.pick(0.02, 0.01):   # ascent-position sums beyond 2^31 / 2^32 need very long strands
+            n_len = rng.choice([70000, 100000, 150000])
         if kind == "random":
             s = gens.random_dna(rng, n_len)
         elif kind == "ascending":
